@@ -265,9 +265,9 @@ def batches_for(prop, tier):
     q = tier == "quick"
     if prop == "C18":
         return [
-            Batch("equiv", "layout", 3000 if q else 60000, {"planted": 0}, "equiv/random-layouts"),
-            Batch("equiv", "layout", 2000 if q else 40000, {"planted": 1}, "equiv/planted-collisions"),
-            Batch("equiv", "layout", 1500 if q else 30000, {"planted": 2}, "equiv/lattice-layouts"),
+            Batch("equiv", "layout", 3000 if q else 30000, {"planted": 0}, "equiv/random-layouts"),
+            Batch("equiv", "layout", 2000 if q else 15000, {"planted": 1}, "equiv/planted-collisions"),
+            Batch("equiv", "layout", 1500 if q else 15000, {"planted": 2}, "equiv/lattice-layouts"),
         ]
     if prop == "C07":
         return [
